@@ -106,7 +106,9 @@ def run(chk, facts, tier):
         for fn in variants(facts, LL + name, chk):
             stored = {target_name(tgt) for tgt, op, val, st in stores(fn.body)}
             rets = fn.returns()
-            ok = set(FIELDS) <= stored and len(rets) == 1 and any(c.cn == 'check_timing_paremeters' for c in rets[0].calls())
+            # every return is the validation result, or a literal false (an earlier test failed)
+            kinds = ['check' if any(c.cn == 'check_timing_paremeters' for c in deep_calls(r)) else ('false' if ret_value(r) is not None and cval(ret_value(r)) == 0 else '?') for r in rets]
+            ok = set(FIELDS) <= stored and 'check' in kinds and '?' not in kinds
             chk.instance('fields-parsed', fn, name, ok, '' if ok else 'missing field store or validation result not returned', key=name)
     for fn in variants(facts, LL + 'adv_received', chk):
         st = [s for tgt, op, val, s in stores(fn.body) if is_name(tgt, 'state_') and strip_casts(val).n == 'connecting']
